@@ -1002,6 +1002,8 @@ func (s *Server) handleInputCommand(client *Client, msg *Message) error {
 		if i := strings.IndexByte(msg.Args[0], '?'); i != -1 {
 			query = msg.Args[0][i+1:]
 			msg.Args[0] = msg.Args[0][:i]
+			// the command name was cached with the query string attached
+			msg._command = ""
 		}
 		if strings.HasSuffix(msg.Args[0], ".mvt") ||
 			strings.HasSuffix(msg.Args[0], ".pbf") {
